@@ -46,6 +46,8 @@ InitsMC ==
   ELSE IF InitKind = "seeded2" THEN
        {[xi |-> XiAt(E, {hacc}), th |-> ThWith(1 :> <<RecA>> @@ E :> <<RecB>>), tau |-> 0],
         [xi |-> XiAt(1, {hacc}), th |-> ThWith(2 :> <<RecC, RecA>>), tau |-> 0]}
+  ELSE IF InitKind = "seeded0" THEN
+       {[xi |-> XiAt(E, {hacc}), th |-> ThWith(1 :> <<RecA>> @@ E :> <<RecB>>), tau |-> 0]}
   ELSE IF InitKind = "seeded1" THEN
        {[xi |-> XiAt(E, {hacc}), th |-> ThWith(1 :> <<RecA>>), tau |-> 0],
         [xi |-> XiAt(1, {hacc}), th |-> EmptyTh, tau |-> 0]}
